@@ -113,6 +113,26 @@ Proof.
   - specialize (IH (mkTx (tx_epoch s) (cast_u64 (tx_seq s + TX_SEQ_INCR)))). rewrite E in IH. exact IH.
 Qed.
 
+(* the two ends of the size range: send(empty) emits nothing and allocates nothing; a 1 MiB send is 874
+   records (instances of split_thm, stated for the record) *)
+Theorem send_empty : forall (seal : list Z -> list Z -> list Z -> list Z -> list Z) key iv s,
+  send seal key iv s [] = (s, []).
+Proof. intros. reflexivity. Qed.
+
+Theorem send_1MiB : forall (seal : list Z -> list Z -> list Z -> list Z -> list Z) key iv epoch seq0 data,
+  zlen data = 1048576 -> 0 <= seq0 -> seq0 + 874 < 2 ^ 64 ->
+  length (snd (send seal key iv (mkTx epoch seq0) data)) = 874%nat /\
+  fst (send seal key iv (mkTx epoch seq0) data) = mkTx epoch (seq0 + 874).
+Proof.
+  intros seal key iv epoch seq0 data Hd H0 Hw.
+  destruct (split_thm seal key iv epoch seq0 data) as [Hc [Hl [_ [_ [_ Hfin]]]]].
+  rewrite Hd in Hc. change ((1048576 + MAX_APP_DATA_RECORD_SIZE - 1) / MAX_APP_DATA_RECORD_SIZE) with 874 in Hc.
+  assert (Hn : length (snd (send seal key iv (mkTx epoch seq0) data)) = 874%nat) by (unfold zlen in Hc; lia).
+  split; [exact Hn|].
+  assert (Hz : zlen (chunks MAXN data) = 874) by (unfold zlen; rewrite <- Hl, Hn; reflexivity).
+  destruct (Hfin H0) as [_ Hf]; [rewrite Hz; exact Hw|]. rewrite Hf, Hz. reflexivity.
+Qed.
+
 (* the datagrams depend on the application bytes only through `seal`: with any sealing function that hides
    the plaintext content, two payloads of equal length produce identical datagrams *)
 Theorem wire_only_via_seal : forall seal0 key iv s d1 d2,
@@ -391,3 +411,74 @@ Example concurrent_example :
       (g_wire (run (init_world 1 1 todo) [0; 1; 2; 1; 0; 2; 2; 1; 0]%nat))
   = [(2%nat, 21, 1, 3, [1; 0]); (1%nat, 23, 1, 1, [4]); (0%nat, 23, 1, 2, [1; 2; 3])].
 Proof. vm_compute. reflexivity. Qed.
+
+(* ------------------------------------------------------------------ the start of the connection *)
+Lemma run_snoc w sched x : run w (sched ++ [x]) = step (run w sched) x.
+Proof. unfold run. rewrite fold_left_app. reflexivity. Qed.
+Lemma crun_snoc cw sched x : crun cw (sched ++ [x]) = cstep (crun cw sched) x.
+Proof. unfold crun. rewrite fold_left_app. reflexivity. Qed.
+
+Definition idle_threads (todo : nat -> list job) : nat -> thread := fun i => mkThread (todo i) PIdle.
+
+(* with the stores first, nothing happens on the sender side until Connected is published, and from then on
+   the machine is exactly `run` from init_world *)
+Inductive phase (e0 s0 : Z) (todo : nat -> list job) : nat -> cworld -> Prop :=
+| Ph0 n : phase e0 s0 todo n (mkCW false [PubEpoch; PubSeq; PubState] e0 s0 (mkWorld 0 0 s0 (idle_threads todo) []))
+| Ph1 n : phase e0 s0 todo n (mkCW false [PubSeq; PubState] e0 s0 (mkWorld e0 0 s0 (idle_threads todo) []))
+| Ph2 n : phase e0 s0 todo n (mkCW false [PubState] e0 s0 (mkWorld e0 s0 s0 (idle_threads todo) []))
+| Ph3 n sched' : (length sched' <= n)%nat ->
+    phase e0 s0 todo n (mkCW true [] e0 s0 (run (init_world e0 s0 todo) sched')).
+
+Lemma phase_step e0 s0 todo n cw x : phase e0 s0 todo n cw -> phase e0 s0 todo (S n) (cstep cw x).
+Proof.
+  intros P. destruct P as [n|n|n|n sched' Hl]; destruct x as [tid|]; cbn [cstep c_w c_pub c_conn c_e0 c_s0 g_threads g_seq g_epoch g_hs_seq g_wire idle_threads t_pc];
+    try (constructor; fail).
+  - (* publish: the world is init_world *)
+    apply (Ph3 e0 s0 todo (S n) []). cbn [length]. lia.
+  - (* sender step after publication *)
+    assert (E : forall w, match t_pc (g_threads w tid) with
+                          | PIdle => mkCW true [] e0 s0 (step w tid)
+                          | _ => mkCW true [] e0 s0 (step w tid) end = mkCW true [] e0 s0 (step w tid))
+      by (intros w; destruct (t_pc (g_threads w tid)); reflexivity).
+    rewrite E, <- run_snoc. apply Ph3. rewrite app_length. cbn [length]. lia.
+  - apply Ph3. lia.
+Qed.
+
+Lemma phase_run e0 s0 todo sched :
+  phase e0 s0 todo (length sched) (crun (cinit true e0 s0 todo) sched).
+Proof.
+  induction sched as [|x sched IH] using rev_ind.
+  - cbn. apply Ph0.
+  - rewrite crun_snoc, app_length. cbn [length]. replace (length sched + 1)%nat with (S (length sched)) by lia.
+    apply phase_step. exact IH.
+Qed.
+
+(* C03_seq_unique_from_connect: sender tasks may start spinning on send() before the handshake ends; with the
+   counters initialised before Connected is published (the order the source has: Gen flag), every datagram
+   carries the handshake's final epoch, a sequence number >= ctx.sequence_number (so never a nonce of the
+   handshake records of that epoch, which are numbered below it), all pairwise distinct *)
+Theorem seq_unique_from_connect : forall e0 s0 (todo : nat -> list job) (sched : list (option nat)),
+  0 <= s0 -> s0 + Z.of_nat (length sched) <= 2 ^ 48 ->
+  let w := c_w (crun (cinit connected_published_after_stores e0 s0 todo) sched) in
+  NoDup (map w_seq (g_wire w)) /\
+  (forall r, In r (g_wire w) -> w_epoch r = e0 /\ s0 <= w_seq r < 2 ^ 48).
+Proof.
+  intros e0 s0 todo sched Hs0 Hb. unfold connected_published_after_stores.
+  pose proof (phase_run e0 s0 todo sched) as P.
+  destruct P as [n|n|n|n sched' Hl]; cbn [c_w g_wire map]; try (split; [constructor|intros r []]).
+  apply seq_unique_concurrent; [exact Hs0|lia].
+Qed.
+
+(* the order the code had before 9dff55e (Connected published first): three witnesses, e0 = s0 = 1 as after a
+   real handshake -- a record numbered from the still-zero epoch (what the stress run observed on the real
+   code), a record with (epoch 1, seq 0) = the nonce of the Finished record, and two records with the same
+   sequence number *)
+Definition old_order_wire (sched : list (option nat)) : list (Z * Z * Z) :=
+  map (fun r => (w_ct r, w_epoch r, w_seq r))
+      (g_wire (c_w (crun (cinit false 1 1 (fun i => match i with O => send_jobs [7] ++ send_jobs [8] ++ send_jobs [9] | _ => [] end)) sched))).
+Theorem connect_window_refuted :
+  old_order_wire [None; Some 0; Some 0; Some 0]%nat = [(23, 0, 0)] /\
+  old_order_wire [None; None; Some 0; Some 0; Some 0]%nat = [(23, 1, 0)] /\
+  old_order_wire [None; None; Some 0; Some 0; Some 0; Some 0; Some 0; None; Some 0; Some 0; Some 0; Some 0]%nat
+    = [(23, 1, 0); (23, 1, 1); (23, 1, 1)].
+Proof. vm_compute. repeat split. Qed.
